@@ -31,6 +31,7 @@ theorem startLazy_spec (cfg : Cfg) (src : Src) (ovr : Option Exec) (ctx : Option
   | unit => simp [startLazy, startSrc, specSrc]
   | sharedReady r => simp [startLazy, startSrc, specSrc]
   | sharedContract p f => simp [startLazy, startSrc, specSrc, specFire]
+  | sharedKept p f pre => cases h : g.isSet p pre <;> simp [startLazy, startSrc, h, specSrc, specFire]
 
 /-- a cascade whose outcome denotes `spec p'` comes to rest in a state satisfying the invariant -/
 theorem inv_settle (cfg : Cfg) (st0 : State) (o : Out) (p' : Prog) (h' : Handle)
@@ -172,9 +173,9 @@ theorem inv_step (cfg : Cfg) (st : State) (p : Prog) (h : Handle) (ev : Event) (
         simp only []
         by_cases hq : q = q'
         · simp only [hq, ite_true]
-          exact inv_settle cfg _ _ _ _ rfl h1 (by rw [resume_den, h2]) h4
+          exact inv_settle cfg _ _ _ _ rfl h1 (by rw [resume_den, h2]; simp) h4
         · simp only [hq, ite_false]
-          exact ⟨rfl, h1, h2, h4⟩
+          exact ⟨rfl, h1, by simpa using h2, h4⟩
     | call k =>
       simp only [clientEv]
       cases hw : t.wait with
